@@ -45,6 +45,8 @@ echo "# Seeded changes and which check catches them"
 echo ""
 echo "Each row: a change made by a fresh sub-agent that saw only the property text and a scratch worktree (64 tests pass with it, its own demo fails with it and passes without). Result of the property's quick check on $(date -u +%Y-%m-%d) with the patch applied to a private copy of /repo (tools/seed_table_par.sh; \`tools/run_seed.sh <seed> quick\` does the same on /repo itself and reverts)."
 echo ""
+echo "When the tool is given a seed list only those rows are recomputed and the others are kept from the previous table (the checks are only strengthened in between; a full table takes about 100 minutes with 10 workers). State on 2026-09-29: waves 1-9 from the full run of that day, the 40 rows of wave 10 (_m11, _m12) and every row that was a miss or a one-seed catch recomputed after the additions described in DESIGN.md I.6. Not reported by its own property's check: C07_m9 (C07's check has no stop/resume leg; C14's check reports it). C05_m1, C07_m3 and C20_m3 are superseded or neutralised by later repairs (their meta.json says which)."
+echo ""
 echo "| seed | change | exit code under VERIF_SEED 0 and 1 | how it is reported (seed 0) | first line of the report (seed 0) |"
 echo "|---|---|---|---|---|"
 for S in "${ALL[@]}"; do
